@@ -761,7 +761,7 @@ func checkC04(c *lib.Ctx) {
 			b, _ := json.Marshal(c04Case{Op: p.op.Name, Fault: "none", Opt: p.variant})
 			dryRaw = append(dryRaw, b)
 		}
-		results, deaths, err := cliRunPool("c04", nil, dryRaw, workers, 120*time.Second, nil)
+		results, deaths, err := cliRunPoolC("c04", nil, dryRaw, workers, 120*time.Second, nil, func(i int) string { return "c04/" + pairs[i].op.Name })
 		if err != nil {
 			r.Fail(lib.Failure{Kind: "tie", Key: "child-start", What: err.Error()})
 			return
@@ -771,6 +771,9 @@ func checkC04(c *lib.Ctx) {
 			op := p.op
 			none := c04Case{Op: op.Name, Fault: "none", Opt: p.variant}
 			okey := cliOpKey(op.Name, p.variant)
+			if deaths[i] == cliNotRun {
+				continue
+			}
 			if deaths[i] != nil || results[i] == nil {
 				r.Fail(lib.Failure{Kind: "oracle", Key: "valid-run/" + okey, What: "child died on a run without fault", Input: none, Actual: deaths[i]})
 				continue
@@ -1000,7 +1003,7 @@ func checkC04(c *lib.Ctx) {
 		raws[i], _ = json.Marshal(cs)
 	}
 	t0 := time.Now()
-	results, deaths, err := cliRunPool("c04", nil, raws, workers, 120*time.Second, nil)
+	results, deaths, err := cliRunPoolC("c04", nil, raws, workers, 120*time.Second, nil, func(i int) string { return "c04/" + cases[i].Op })
 	poolWall := time.Since(t0)
 	if err != nil {
 		r.Fail(lib.Failure{Kind: "tie", Key: "child-start", What: err.Error()})
@@ -1011,6 +1014,9 @@ func checkC04(c *lib.Ctx) {
 	var connInputs []any
 	connReqs := 0
 	for i, cs := range cases {
+		if deaths[i] == cliNotRun {
+			continue
+		}
 		if i == selftest {
 			var res c04Res
 			json.Unmarshal(results[i], &res)
